@@ -84,7 +84,16 @@ class Impl:
         core.use_repo()
         import mpgameserver.dispatch as D
         self.D = D
-        self.classes = {ev: type(ev, (), {}) for ev in EVENTS}
+        # message classes as applications define them: at module level, nested in a namespace class (`Msg.EvB`) or local to a function -
+        # a class is routed by its NAME, wherever it was defined
+        class Msg:
+            pass
+        self.classes = {}
+        for i, ev in enumerate(EVENTS):
+            qual = {0: ev, 1: "Msg." + ev, 2: "make_messages.<locals>." + ev}[i % 3]
+            self.classes[ev] = type(ev, (), {"__qualname__": qual})
+            if i % 3 == 1:
+                setattr(Msg, ev, self.classes[ev])
         self.raise_next = None      # the exception object the next invoked handler raises (after logging the call)
 
     def make_exc(self, name):
